@@ -298,6 +298,22 @@ func (k c10) random(c *rt.Ctx) {
 			}
 		}
 		k.judgeField(c, gen.Call("join", args...), numStore, "join", cell)
+		if rowdep {
+			// the same functions with their arguments named as select fields
+			uk, lv := gen.Ref("uk", gen.Call("upper", gen.Key())), gen.Ref("lv", gen.Call("lower", gen.Value()))
+			n1 := gen.Ref("n1", gen.Call("strlen", gen.Key()))
+			switch r.Intn(4) {
+			case 0:
+				k.judgeField(c, gen.Call("join", gen.Str(sep), uk, lv), numStore, "join", "named-args")
+			case 1:
+				k.judgeField(c, gen.Call("join", gen.Str(sep), n1, gen.Key(), lv), numStore, "join", "named-args")
+			case 2:
+				k.judgeField(c, gen.Call("upper", gen.Bin("+", lv, gen.Str("x"))), numStore, "upper", "named-args")
+			default:
+				k.judgeField(c, gen.Call("strlen", gen.Call("str", n1)), numStore, "strlen", "named-args")
+			}
+			c.Rec.Inc("named_args")
+		}
 		k.judgeField(c, gen.Call("upper", gen.Bin("+", gen.Key(), gen.Str("xY"))), numStore, "upper", "rowdep")
 		k.judgeField(c, gen.Call("lower", gen.Bin("+", gen.Str("Q"), gen.Key())), numStore, "lower", "rowdep")
 	}
@@ -365,7 +381,18 @@ func splitTop(s string) []string {
 func (k c10) judgeField(c *rt.Ctx, expr *gen.Node, pairs []refstore.Pair, fn, cell string) {
 	rec := c.Rec
 	pairs = refstore.New(pairs).Pairs() // key order = row order
-	q := "select key, " + gen.Print(expr) + " where true"
+	// arguments given through select-field names: the defining fields come first, the judged
+	// column is the last one (the reference evaluates the definitions in place)
+	var defs []string
+	seenRef := map[string]bool{}
+	expr.Walk(func(x *gen.Node) {
+		if x.K == gen.KRef && !seenRef[x.Op] {
+			seenRef[x.Op] = true
+			defs = append(defs, gen.Print(x.Def)+" as "+x.Op)
+		}
+	})
+	col := 1 + len(defs)
+	q := "select key, " + strings.Join(append(defs, gen.Print(expr)), ", ") + " where true"
 	// reference per row
 	type exp struct {
 		v        refeval.Val
@@ -459,8 +486,8 @@ func (k c10) judgeField(c *rt.Ctx, expr *gen.Node, pairs []refstore.Pair, fn, ce
 			}
 			rec.Inc("values_compared")
 			rec.DistinctS(q + "\x00" + pairs[i].V + md)
-			if !c10Close(exps[i].v, o.Rows[i][1]) {
-				c.Violation("value-differs-from-documentation", cluster, detail(rt.D{"pair": [2]string{pairs[i].K, pairs[i].V}, "expected": exps[i].v.Norm(), "observed": o.Rows[i][1]}))
+			if !c10Close(exps[i].v, o.Rows[i][col]) {
+				c.Violation("value-differs-from-documentation", cluster, detail(rt.D{"pair": [2]string{pairs[i].K, pairs[i].V}, "expected": exps[i].v.Norm(), "observed": o.Rows[i][col]}))
 				return
 			}
 		}
